@@ -32,6 +32,8 @@ func init() {
 			"budgets are per loop site and dimension; a routine that needs more sweeps than LAPACK grants is reported",
 			"a panic or an error is an acceptable outcome for degenerate input (the property asks for termination and loud failure, not for a result)",
 			"shape mismatches that the library tolerates are counted (accepted-mismatch), and only reported when they change a shape, write outside the view or leave an unreadable object",
+			"every optimizer is given an explicit iteration cap K (gradient descent, whose API has none, through its hook): an outer optimisation loop that has not converged ends at the caller's cap; what must end on its own are the inner loops (line search, back-tracking, constraint halving), and those are budgeted",
+			"hostile option values: the first trial step of the line search is drawn from {1, 0.5, 4, 1e308, +Inf, NaN, -1, 0}",
 			"loops without a tick are covered by the driver's stall watchdog only (a stall reproduced in two fresh processes is reported as a hang)",
 		},
 		RealCode:     []string{"algorithm/* with verifhook.Tick (build tag verif), all container types"},
